@@ -1971,8 +1971,14 @@ namespace awkward {
         util::make_stops(offsets_).data(),
         stable,
         ascending,
-        true);
+        shifts.length() == 0);
       util::handle_error(err, classname(), identities_.get());
+      if (shifts.length() > 0) {
+        for (int64_t i = 0;  i < parents.length();  i++) {
+          int64_t g = output.data()[i];
+          output.data()[i] = g + shifts.data()[g] - starts.data()[parents.data()[i]];
+        }
+      }
 
       ContentPtr out = std::make_shared<NumpyArray>(output);
 
@@ -2056,6 +2062,18 @@ namespace awkward {
         nextlen,
         nextcarry.data());
       util::handle_error(err7, classname(), identities_.get());
+      if (shifts.length() > 0) {
+        Index64 localparents(nextlen);
+        struct Error err8 = kernel::ListOffsetArray_reduce_local_nextparents_64(
+          kernel::lib::cpu,   // DERIVE
+          localparents.data(),
+          offsets_.data(),
+          offsets_.length() - 1);
+        util::handle_error(err8, classname(), identities_.get());
+        for (int64_t j = 0;  j < nextlen;  j++) {
+          nextshifts.data()[j] += shifts.data()[localparents.data()[nextcarry.data()[j]]];
+        }
+      }
 
       ContentPtr nextcontent = content_.get()->carry(nextcarry, false);
 
